@@ -35,7 +35,7 @@ MIN_EVAL = {'quick': 2000, 'thorough': 60000}
 REQUIRED_COUNTERS = ['class:hand-built', 'class:decoded', 'class:edited', 'class:shuffled', 'class:reified-text', 'class:wide',
                      'dereified_something',
                      'op:re', 'op:de', 'op:ra', 'op:ib', 'changed']
-MODELS_R = ['default', 'amr', 'amr', 'mini', 'rand1', 'rand2', 'amr', 'rand5']
+MODELS_R = ['default', 'amr', 'amr', 'mini', 'rand1', 'rand2', 'amr', 'rand5', 'miniroot']
 R_AMR = [':ARG0', ':ARG1', ':ARG2', ':mod', ':domain', ':op1', ':op2', ':polarity', ':quant',
          ':name', ':consist-of', ':time', ':location', ':poss', ':beneficiary', ':role',
          ':employed-by', ':accompanier', ':age', ':cause', ':subset', ':superset', ':r0', ':r1', ':k']
@@ -73,6 +73,27 @@ def apply(op, g, model):
     raise ValueError(op)
 
 
+def plant_reified(rng, node, rm, counter=None):
+    """rewrite some branches (role, target) whose role has an unambiguous reification as the
+    explicit reified relation ':SRC-of (v / concept :TGT target)', recursively - so reified nodes
+    can be arguments of other reified nodes"""
+    counter = counter if counter is not None else [0]
+    v, br = node
+    out = []
+    for r, t in br:
+        if isinstance(t, tuple):
+            t = plant_reified(rng, t, rm, counter)
+        base = r.partition('~')[0]
+        fr = rm.first_reification(base) if r != '/' else None
+        if fr and rm.unambiguous(base) and not rm.inverted(base) and rng.random() < 0.6 and t is not None:
+            concept, sr, tr = fr
+            counter[0] += 1
+            out.append((sr + '-of', (f'rf{counter[0]}', [('/', concept), (tr, t)])))
+        else:
+            out.append((r, t))
+    return (v, out)
+
+
 def build(ctx, p):
     rng = ctx.rng('rand', p['i'])
     mname = MODELS_R[p['i'] % len(MODELS_R)]
@@ -89,6 +110,8 @@ def build(ctx, p):
         # explicit reified relations in the *text* (so that dereify_edges has work to do),
         # written from any node - also from the reified node itself - and then re-topped
         node = T.rand_tree(rng, rm, roles=R_AMR, concepts=CONCEPTS, p_aln=0.2)
+        if p['i'] % 12 == 11:
+            node = plant_reified(rng, node, rm)
         if not _trees.wellformed(node, rm):
             return None
         ok, g0 = ctx.call(layout.interpret, Tree(node), model, clause='pre-interpret')
